@@ -331,6 +331,13 @@ T_TimerFire == /\ IsEvent("timer_fire")
                   /\ G("tf.k", tmr[i].k + 1 = E.k)
                   /\ TimerFire(i) /\ UNCHANGED <<cur, yl>>
 
+\* the future given to delayed_exec has run to its end
+T_ExecDone == /\ IsEvent("exec_done")
+              /\ LET i == E.task IN
+                 /\ G("xd.cur", cur = i /\ i \in DOMAIN tmr)
+                 /\ G(IF act[tmr[i].a].pc = "failed" THEN "tf.state.failed" ELSE "tf.state", tmr[i].st = "body")   \* not aborted: the actor (incarnation) is alive
+                 /\ TimerBodyEnd(i) /\ cur' = cur /\ yl' = FALSE
+
 \* a Default value is constructed: recreate-from-default during a restart, or the registry spawning a service
 \* (DefaultSpawnable::spawn_default: the library makes the value inside the client's spawn call)
 SpawningDefault(c) == /\ c \in Client
@@ -407,7 +414,7 @@ T_Resume == /\ cur # None /\ yl /\ l <= Len(Rec) /\ E.task = cur /\ E.ev # "bloc
 TNext == \/ T_OpBegin \/ T_Issue \/ T_OpEndUnissued
          \/ (T_Reset /\ pend' = [c \in Client |-> NoOp])
          \/ /\ \/ T_Resume \/ T_Pick \/ T_Block \/ T_Exit \/ T_Yield \/ T_Advance \/ T_Cancel
-               \/ T_OpEnd \/ T_Cb \/ T_HBegin \/ T_HEnd \/ T_HAbandon \/ T_Eff \/ T_DefaultNew \/ T_TimerFire
+               \/ T_OpEnd \/ T_Cb \/ T_HBegin \/ T_HEnd \/ T_HAbandon \/ T_Eff \/ T_DefaultNew \/ T_TimerFire \/ T_ExecDone
                \/ T_Quiescent \/ T_Silent \/ T_Unavailable
             /\ UNCHANGED pend
 \* Fairness monitor (C13: "an explicit stop or handle drop terminates it even if the stream never ends").  The real
